@@ -123,7 +123,7 @@ def invariants(ctx, F):
         has = False
         for blk in b.blocks:
             macs = (blk["term"].get("loc") or {}).get("macros") or []
-            if any(m in ("invariant_impl", "invariant") for m in macs):
+            if any(m.rsplit("::", 1)[-1] in ("invariant_impl", "invariant") for m in macs):
                 has = True
         if unsafe_cfg:
             has = has or any((t["callee"].get("path") or "") == "core::hint::unreachable_unchecked" for _, t in b.calls())
@@ -138,7 +138,7 @@ def invariants(ctx, F):
                 continue
             term = b.blocks[last[0]]["term"]
             macs = (term.get("loc") or {}).get("macros") or []
-            is_inv = any(m in ("invariant_impl", "invariant") for m in macs)
+            is_inv = any(m.rsplit("::", 1)[-1] in ("invariant_impl", "invariant") for m in macs)
             if unsafe_cfg and last[1] == "core::hint::unreachable_unchecked":
                 is_inv = True
             if not is_inv or not p.conds:
@@ -238,7 +238,7 @@ def layering(ctx, F):
                 continue
             bad.append("%s calls unsafe %s" % (p, cp))
         elif cp == "core::hint::unreachable_unchecked":
-            if not any(m in ("invariant_impl", "invariant") for m in macs):
+            if not any(m.rsplit("::", 1)[-1] in ("invariant_impl", "invariant") for m in macs):
                 bad.append("%s calls unreachable_unchecked outside invariant!" % p)
         elif cp == "core::str::from_utf8_unchecked":
             if not re.search(r"hash::inner::FuzzyHash<.*(core::fmt::Display>::fmt|serde::Serialize>::serialize)$", p):
